@@ -251,6 +251,11 @@ func apply(t *thread) bool {
 // goroutines with the controlled steps. Set per scenario by the harness.
 var Quiet func() bool
 
+// NewestFirst reverses the canonical order of the threads other than the running one: descending ids, so that the default
+// schedule prefers the goroutines spawned last (the workers of the youngest request) over older request threads. With a
+// deviation bound, the two default orders reach different neighbourhoods of the schedule space.
+var NewestFirst bool
+
 func waitStep() time.Duration {
 	if Quiet != nil {
 		return time.Millisecond
@@ -415,9 +420,17 @@ func Run(bodies []func(), prefix []int) *Execution {
 				stillEnabled = true
 			}
 		}
-		for _, t := range en {
-			if t.id != running {
-				ordered = append(ordered, t)
+		if NewestFirst {
+			for i := len(en) - 1; i >= 0; i-- {
+				if en[i].id != running {
+					ordered = append(ordered, en[i])
+				}
+			}
+		} else {
+			for _, t := range en {
+				if t.id != running {
+					ordered = append(ordered, t)
+				}
 			}
 		}
 		choice := 0
